@@ -238,6 +238,41 @@ theorem surrogate_output_decodes (cfg : Config) (hc : cfg.color = false) (hv : c
   rw [f1, h1, ← f2]
   exact surEmit_regexp cfg hc hv _ hwf
 
+/-- **C11 (decoding the surrogate pairs gives a pattern with the language of the unescaped build), all inputs without `-r`, an anchor in
+place** what `build()` returns with `-e` and surrogate pairs decodes, token by token and uniquely, to a text `t` that the model of
+`Regex::new` accepts and that matches exactly the strings the pattern built without `-e` matches (`t` is what `build()` returns with
+`-e` alone) -/
+theorem surrogates_decode_to_same_language (cfg : Config) (hp : PlainPrintCI cfg) (env : Env) (ws : List Str)
+    (stS stE st0 : Stages) (hS : regExpFrom (withSur (withEsc cfg true) true) env ws = .ok stS)
+    (hE : regExpFrom (withEsc cfg true) env ws = .ok stE) (h0 : regExpFrom (withEsc cfg false) env ws = .ok st0)
+    (hseg : ∀ w ∈ storedCases cfg env ws, SegOK env w) (hne : ∃ t ∈ storedCases cfg env ws, t ≠ [])
+    (s : Str) (hs : ∀ c ∈ s, Scalar c) :
+    ∃ t PE P0, SurEmit (fmtRegExp (withSur (withEsc cfg true) true) stS.finalAst) t ∧
+      Spec.parse t = some (⟨cfg.ci, false⟩, PE) ∧
+      Spec.parse (fmtRegExp (withEsc cfg false) st0.finalAst) = some (⟨cfg.ci, false⟩, P0) ∧
+      Spec.fullMatch cfg.ci PE s = Spec.fullMatch cfg.ci P0 s := by
+  obtain ⟨PE, P0, hPE, hP0, hm⟩ := escapes_decode_to_same_language cfg hp env ws stE st0 hE h0 hseg hne s hs
+  have heq : withSur (withEsc cfg true) false = withEsc cfg true := by
+    have := hp.sur
+    cases cfg
+    simp only [withSur, withEsc] at this ⊢
+    simp_all
+  have hws : ws ≠ [] := by
+    obtain ⟨t, ht, _⟩ := hne
+    intro e; subst e
+    simp [storedCases, lowerCases] at ht
+  have hanch : ¬ ((withEsc cfg true).noStart = true ∧ (withEsc cfg true).noEnd = true) := by
+    have := hp.anch
+    intro ⟨h1, h2⟩
+    have e1 : cfg.noStart = true := h1
+    have e2 : cfg.noEnd = true := h2
+    rw [e1, e2] at this
+    cases this
+  have hdec := surrogate_output_decodes (withEsc cfg true) hp.color hp.verb hp.rep hanch env ws stS stE hS (by rw [heq]; exact hE)
+    hseg hws
+  rw [heq] at hdec
+  exact ⟨_, PE, P0, hdec, hPE, hP0, hm⟩
+
 /-! non-vacuity -/
 example : Expr.escapeChar 0x1F4A9 true = strOf "\\u{d83d}\\u{dca9}" := by decide
 example : Expr.escapeChar 0x10FFFF true = strOf "\\u{dbff}\\u{dfff}" := by decide
